@@ -640,6 +640,27 @@ class Gen:
             roots.append(root)
             groups.append({'O': O, 'files': [f for _, f in files],
                            'subs': [f for _, f in subs]})
+        if len(roots) > 1 and not getattr(self, 'cache_dir_mode', None) and \
+                rng.random() < self.p.get('p_cycle', 0.0):
+            # a call graph that closes on itself through the cache: one root
+            # records P -> [file g, S]; the other root runs S, which (g being
+            # virtually gone) calls P - whose recorded subtree contains the
+            # S that is running right now
+            g = 'cy/g'
+            args = rng.choice([[], [1], [{'k': 1}]])
+            funcs['Fcy'] = {'kind': 'file', 'name': 'nFcy',
+                            'variants': [[['w', 'once']]]}
+            funcs['Scy'] = {'kind': 'sub', 'name': 'nScy', 'variants': [[
+                ['q', 'exists', g],
+                ['if', ['lasttrue'], [], [['sb', 'Pcy', [], {}, True]]]]]}
+            funcs['Pcy'] = {'kind': 'sub', 'name': 'nPcy', 'variants': [[
+                ['bf', g, 'Fcy', [], {}, rng.choice(['METADATA', 'HASH']),
+                 True],
+                ['sb', 'Scy', args, {}, True]]]}
+            roots[0].insert(rng.randint(0, len(roots[0])),
+                            ['sb', 'Pcy', [], {}, True])
+            roots[1].insert(0, ['sb', 'Scy', args, {}, True])
+            U = sorted(set(U) | {g})
         self.U_final = U
         return funcs, roots, groups
 
